@@ -18,12 +18,20 @@ META = {
             "check, AddVbkBlock, AddVTB/addPayloads/validateBTCContext/AddVbkEndorsement, CheckPublicationData, "
             "AddAltEndorsement, in command order) accept a block body iff the declarative rule set ctx_valid holds, with "
             "the declared effects; a block violating a rule is refused together with every chain containing it "
-            "(apply-as-a-fold); a refusal always names an invalid block; invariant over activation histories of a simple "
-            "machine (_partial: re-application from the root; the exact inverse of unapply is the POP state machine "
-            "model's law, C01). Tie to the code: extracted model vs rebuilt library on every verdict of generated "
+            "(apply-as-a-fold); a refusal always names an invalid block; FULL invariant on the as-coded POP state "
+            "machine (Pop/Sm*.v, every VBK_ASSERT explicit): the command groups of a body translated to the machine's "
+            "AddRef/AddEnd/Need/Poison commands all execute iff the body is ctx_valid (simulation), hence in every "
+            "state reachable by any history of connectBlock/setState/comparePopScore (any scorer) the active chain "
+            "consists of contextually valid blocks only (C04_active_payloads_valid, C04_active_block_valid; uses "
+            "reachable_good / applied_blocks_executed of the state machine model). Tie to the code: extracted model vs rebuilt library on every verdict of generated "
             "histories (16 rule-breaking mutations + 6 boundary non-violations at random depth, random call orders), "
             "plus the direct oracle: an independent C++ re-check of every payload on the active chain.",
-    "note": "Trusted: Coq kernel, extraction, OCaml driver, C++ harness incl. the independent audit, id mirror of the "
+    "note": "Documented deviation of the observation: the property text demands comparePopScore > 0 for an invalid "
+            "candidate; when neither chain crosses a keystone boundary the comparator answers 0 before it examines the "
+            "candidate (which is then neither validated nor activated; setState on it fails). The check accepts exactly "
+            "this case and counts it in coverage.rules.comparePopScore_on_planted_invalid_candidate; any other answer "
+            "than 'tip wins' is a violation. "
+            "Trusted: Coq kernel, extraction, OCaml driver, C++ harness incl. the independent audit, id mirror of the "
             "generator. Modelled not verified: contextual SP header rules (C15), MAX_VBKPOPTX_PER_VBK_BLOCK is in the "
             "model but not reached by the generator (1025 pop txs in one VBK block), VBK-level validity of the "
             "containing block.",
